@@ -8,7 +8,7 @@ in : `run <prog> <args>`   prog = `(prog (<T>…) <stmt>…)`, args = `(args <o>
         stmt = `(asg x e)` | `(if t (<stmt>…) (<stmt>…))` | `(ret e)` | `(unp (x…) e)` | `(for x e (<stmt>…))` | `(aug x e)`
         expr = `(lit o)` | `(var x)` | `(tup e…)` | `(lst e…)` | `(sub e i)` | `(ite t a b)` | `(call f e…)` | `(add a b)`
         test = `(isnone x)` | `(notnone x)` | `(not t)`
-     `cls <skeleton tokens>`   (Spec/D01.lean)     `call <shared> <seqForm> <valSeq>`     `conv <isListOrTuple> <seqForm> <valSeq>`     `subl <isSub> <assignedInLoop>`     `comp <inLoop> <staleParent> <joinReset>`
+     `cls <skeleton tokens>`   (Spec/D01.lean)     `call <shared> <seqForm> <valSeq>`     `conv <isListOrTuple> <seqForm> <valSeq>`     `subl <isSub> <assignedInLoop>`     `comp <inLoop> <staleParent> <joinReset>`     `masq <asOverSeq> <constrainingSub>`
      `mem <o> <T>`     `creg <k1.k2…>` (the prefixes `_add_composite` records the composite under; `-` = the root)
 out: run: `I <path>=<T>;… | F <flags> | X <path>=<o>;… | O <outcome> | A <argsOk>`  (path = indices joined by `.`, root first)
      cls: the classes, comma separated, `-` if none;   mem: `1`/`0`
@@ -184,6 +184,8 @@ def handle (line : String) : String :=
     if D01_loopCarriedSubscript (a == "1") (l == "1") then "loopCarriedSubscript" else "-"
   | some [.atom "comp", .atom a, .atom b, .atom c] =>
     (match d01CompositeClasses (a == "1") (b == "1") (c == "1") with | [] => "-" | cs => ",".intercalate cs)
+  | some [.atom "masq", .atom a, .atom b] =>
+    if D01_matchAsNested (a == "1") (b == "1") then "matchAsNested" else "-"
   | some [.atom "mem", o, t] =>
     match o.toObj, t.toTy with
     | some o, some t => b2s (mem liveTable o t)
